@@ -56,8 +56,14 @@ def main(argv):
         mod.run(ctx, res)
     except common.DriverError as e:
         infra_error = 'driver: %s' % e
-    except Exception:
-        infra_error = traceback.format_exc()[-3000:]
+    except Exception as e:
+        tb = traceback.format_exc()[-3000:]
+        if not isinstance(e, common.InfraError) and common.exc_in_lark(tb):
+            # lark itself raised something no part of the harness expects (a pinned witness or a direct call behaving in a new way):
+            # that is an observation about the code, not a harness failure
+            res.violation('lark raised an unexpected %s during the check (a direct call of the harness, e.g. the replay of a pinned witness)' % type(e).__name__, {'traceback': tb})
+        else:
+            infra_error = tb
     wall = time.time() - t0
 
     # ---- decide
